@@ -192,7 +192,7 @@ FitsOK(nd, m, ln) ==
 \* ------------------------------------------------------------------ lookups (C02 C03 C04 C16 C19)
 NewLookup(e) == [target |-> e.target, announce |-> e.announce, at |-> now, q |-> <<>>, toks |-> <<>>, budget |-> <<>>,
                  nann |-> 0, anndst |-> {}, ihx |-> "?", fresh |-> TRUE, done |-> FALSE, doneAt |-> -1, eg |-> -1, consumed |-> 0, told |-> {}, sid |-> -1, failed |-> 0,
-                 mech |-> [on |-> FALSE, n |-> 0, why |-> "not-started", amb |-> FALSE]]
+                 mech |-> [on |-> FALSE, n |-> 0, why |-> "not-started", amb |-> FALSE], fifo |-> <<>>]
 BagAdd(b, xs) == LET S0 == {xs[i] : i \in 1..Len(xs)} IN
     [x \in DOMAIN b \cup S0 |-> FGet(b, x, 0) + Cardinality({i \in 1..Len(xs) : xs[i] = x})]
 BagHas(b, x) == x \in DOMAIN b /\ b[x] > 0
@@ -357,8 +357,11 @@ YieldStep(e) ==
         aid == nd.sidAid[e.sid] IN
     /\ Chk("C03", "yield-belongs-to-a-started-search", l, known)
     /\ known => Chk("C03", "yielded-address-was-in-a-response-to-an-outstanding-query-of-this-search", l, BagHas(nd.lk[aid].budget, e.addr))
+    \* the mechanism: the peers of the consumed answers reach the stream in the order of consumption, answer by answer
+    /\ known => MDrift("yields-in-the-order-of-the-consumed-answers", l, Len(nd.lk[aid].fifo) > 0 /\ Head(nd.lk[aid].fifo) = e.addr)
     /\ Upd(e, [nd EXCEPT !.yields = FSet(@, e.sid, Append(FGet(@, e.sid, <<>>), e.addr)),
-                         !.lk = IF known /\ BagHas(nd.lk[aid].budget, e.addr) THEN [@ EXCEPT ![aid].budget = BagDec(@, e.addr)] ELSE @])
+                         !.lk = IF known /\ BagHas(nd.lk[aid].budget, e.addr)
+                                THEN [@ EXCEPT ![aid].budget = BagDec(@, e.addr), ![aid].fifo = IF Len(@) > 0 THEN Tail(@) ELSE @] ELSE @])
     /\ UNCHANGED G
 
 ClosedStep(e) ==
@@ -500,6 +503,7 @@ ConsumeResponse(nd, m, src) ==
              named == IF nd.fam = 4 THEN m.r.nodes ELSE m.r.nodes6 IN
          [nd EXCEPT !.lk[aid].q[m.t].answered = TRUE,
                     !.lk[aid].budget = BagAdd(lk.budget, m.r.values),
+                    !.lk[aid].fifo = @ \o m.r.values,
                     !.lk[aid].consumed = @ + 1,
                     !.lk[aid].told = @ \cup {named[i].addr : i \in 1..Len(named)},
                     !.lk[aid].toks = IF m.r.tokenl >= 0 /\ m.r.idl = 20 THEN FSet(lk.toks, <<m.r.id, src>>, m.r.token) ELSE lk.toks]
